@@ -72,6 +72,19 @@ ByteCases == IF E = STR /\ xs = <<>>
                  IF D.k = "arru8" /\ D.n # Len(bs) THEN <<"err">> ELSE <<"ok", <<9>> \o bs>>>> :
                S \in ByteConts(Len(bs)), D \in ByteConts(Len(bs)) \cup {[k |-> "arru8", n |-> Len(bs) + 1]}} : bs \in ByteLists}
   ELSE {}
+\* hash containers whose elements touch the per-stream string table (records whose header carries a removed field's
+\* name): the elements are written in SOME order, and the table is threaded through them in THAT order - the bytes
+\* are the encoding of one of the permutations as a sequence
+Rem1 == StructT(<<Fld(Nm(105), K("u16"), "plain", FALSE, <<>>)>>, <<Stp("Removed", <<108, 101, 103, 97, 99, 121>>, <<>>)>>)
+Item(n) == <<20, <<0, 0, n>>>>
+SharedT == [k |-> "hset", e |-> Rem1]
+SharedV == <<8, Item(1), Item(2), Item(3)>>
+SharedPerms == {Encode([k |-> "vec", e |-> Rem1], w).b : w \in OrderVariants(SharedT, SharedV)}
+SharedDecodes == (E = STR /\ xs = <<>>) =>
+  \A b \in SharedPerms : \E w \in OrderVariants(SharedT, SharedV) :
+     LET d == Decode([k |-> "vec", e |-> Rem1], b) IN d.ok /\ d.v = w /\ d.p = Len(b) + 1
+Shared == IF E = STR /\ xs = <<>> THEN {[ty |-> SharedT, v |-> SharedV, b |-> Encode([k |-> "vec", e |-> Rem1], SharedV).b, perms |-> SharedPerms]} ELSE {}
 EmitCases == PrintT(<<"REPLAY", ToJson([e |-> E, xs |-> xs, x |-> {XCase(S, D) : S \in Sources, D \in Targets} \cup ByteCases,
-                                        u |-> {UCase(D) : D \in Targets}, unknown |-> EncUnknownForm(Ctr("vec"), <<8>> \o xs, EmptySt).b])>>)
+                                        u |-> {UCase(D) : D \in Targets}, unknown |-> EncUnknownForm(Ctr("vec"), <<8>> \o xs, EmptySt).b,
+                                        shared |-> Shared])>>)
 =============================================================================
